@@ -44,6 +44,8 @@ FailHost(e) ==
      \cup Clause(k = 0 \/ ~e.hassplit \/ e.domain = sufOrder(IF k >= n THEN n ELSE k + 1), "domain-is-suffix-plus-one")
      \* (the TLD predicates are not promised to accept a trailing dot: form 3 is left out)
      \cup (IF e.form = 3 THEN {} ELSE Clause(e.valid_tld = e.is_valid_tld_last, "tld-last-label-only"))
+     \* every spelling of the last label (case, punycode, leading dot), alone and at the end of a host, gets the same answer
+     \cup Clause(\A i \in 1..Len(e.tforms) : e.tforms[i] = e.is_valid_tld_last, "tld-case-and-punycode-insensitive")
      \cup (IF e.form # 3 /\ e.h[1] \in DOMAIN tldseen /\ tldseen[e.h[1]] # e.valid_tld THEN {"tld-last-label-only"} ELSE {})
 
 TrInit == l = 1 /\ rules = {} /\ trie = <<>> /\ tldseen = <<>>
